@@ -28,7 +28,22 @@ def check_subvectors(inp):
     C = obs.classes()[ver]
     o = C(s)
     fails = []
+    # an object on which other public accessors were called first (in a fixed, case-dependent order) answers the same
+    from . import c18
+    A = c18.accessors(ver)
+    names = sorted(A)
+    h = runner.h64(s)
+    pre = [names[(h >> (8 * i)) % len(names)] for i in range(h % 4)]
+    o_used = C(s)
+    for name in pre:
+        A[name](o_used)
+    try:
+        got = (o_used.temporal_vector(), o_used.environmental_vector())
+    except BaseException as e:  # noqa
+        got = "%s: %s" % (type(e).__name__, e)
     tv, ev = o.temporal_vector(), o.environmental_vector()
+    if got != (tv, ev):
+        fails.append(failure([tv, ev], got, note="sub-vectors of an object after %s" % pre))
     wt, we = model_subvector(ver, "temporal", m), model_subvector(ver, "environmental", m)
     if tv != wt:
         fails.append(failure(wt, tv, note="temporal_vector()"))
@@ -91,10 +106,33 @@ def hyp_part(n_examples, shard):
     return part
 
 
+def sweep_part(shard, reps, seed):
+    """every assignment of the mandatory metrics of v2 and v3 (both minor versions), each sub-group of optional metrics in a random
+    shape (absent / all Not Defined / all defined / mixed), official field order or a seeded permutation"""
+    import random
+    part = runner.Part(PID)
+    rng = random.Random(runner.mix(seed, 15, shard))
+    for ver in ("2", "3"):
+        V = spec.VERS[ver]
+        for i, base in enumerate(gen.all_bases(ver)):
+            if i % runner.NPROC != shard:
+                continue
+            for prefix in V.prefixes * (reps * (4 if ver == "2" else 1)):
+                d = dict(base)
+                shapes = [gen.rng_shape(rng, ver, g, d) for g in gen.SUBGROUPS[ver]]
+                s_ = ref.build(prefix, d, gen.ordered(set(d), V.order, rng.randrange(1, 1 << 20) if rng.random() < 0.5 else 0))
+                part.count(None, nontrivial=("mixed" in shapes), distinct=True, classes=("base-sweep", "base-sweep:v" + ver))
+                part.check("subvectors", check_subvectors, {"ver": ver, "s": s_})
+    return part
+
+
 def run(tier, t0):
     part = runner.hyp_shards("vf.props.c15", "hyp_part", 6400 if tier == "quick" else 320000)
+    for p in runner.parallel("vf.props.c15", "sweep_part", [(sh, 1 if tier == "quick" else 12, runner.SEED) for sh in range(runner.NPROC)]):
+        part.merge(p)
     rule = ("accepted v2/v3 vectors in any spelling (uniform presence of optional metrics incl. explicit Not Defined); "
-            "non-trivial = vector with a partially defined temporal or environmental group; distinct by hash")
+            "non-trivial = vector with a partially defined temporal or environmental group; distinct by hash. Plus every v2 / v3 assignment of the mandatory metrics "
+            "with every sub-group of optional metrics in a random shape; every object is also asked after 0-3 other accessor calls")
     return runner.finish(part, tier, t0, rule,
                          ["group metric lists in specification order typed into vf/spec.py"],
-                         required=("v2", "v3", "temporal:none", "temporal:partial", "environmental:none", "environmental:partial", "scope-overridden"))
+                         required=("v2", "v3", "temporal:none", "temporal:partial", "environmental:none", "environmental:partial", "scope-overridden", "base-sweep:v2", "base-sweep:v3"))
